@@ -181,6 +181,8 @@ define {
       \cup (IF ~top /\ CFG.reentrant
             THEN {"kick " \o IName(ix) : ix \in {q \in 1..Len(pi) : PupLive(q) /\ PupMode(pi[q].pup) # "pull"
                                                                    /\ pi[q].sent < MaxData}}
+                 \* ... or makes a member that has not greeted yet greet now
+                 \cup {"kickgreet " \o IName(ix) : ix \in {q \in 1..Len(pi) : pi[q].pending}}
                  \* ... or complete / fail at once
                  \cup {"kickend " \o IName(ix) : ix \in {q \in 1..Len(pi) : PupLive(q) /\ PupMode(pi[q].pup) # "pull"}}
                  \cup (IF CFG.allowFail
@@ -1217,6 +1219,8 @@ SA0:
     call Deliver(KName(ka), sk[ka].tb, MsgE(800 + ka));
   } else if (\E ix \in 1..Len(pi) : ca = "kick " \o IName(ix)) {
     call Emit(CHOOSE ix \in 1..Len(pi) : ca = "kick " \o IName(ix));
+  } else if (\E ix \in 1..Len(pi) : ca = "kickgreet " \o IName(ix)) {
+    call PupTop(CHOOSE ix \in 1..Len(pi) : ca = "kickgreet " \o IName(ix), "greet");
   } else if (\E ix \in 1..Len(pi) : ca = "kickend " \o IName(ix)) {
     call EndP(CHOOSE ix \in 1..Len(pi) : ca = "kickend " \o IName(ix));
   } else if (\E ix \in 1..Len(pi) : ca = "kickfail " \o IName(ix)) {
@@ -1532,6 +1536,8 @@ SinkOpts(k, top) ==
     \cup (IF ~top /\ CFG.reentrant
           THEN {"kick " \o IName(ix) : ix \in {q \in 1..Len(pi) : PupLive(q) /\ PupMode(pi[q].pup) # "pull"
                                                                  /\ pi[q].sent < MaxData}}
+
+               \cup {"kickgreet " \o IName(ix) : ix \in {q \in 1..Len(pi) : pi[q].pending}}
 
                \cup {"kickend " \o IName(ix) : ix \in {q \in 1..Len(pi) : PupLive(q) /\ PupMode(pi[q].pup) # "pull"}}
                \cup (IF CFG.allowFail
@@ -3324,7 +3330,7 @@ DDisp(self) == /\ pc[self] = "DDisp"
                                                                                                                                                                                                                                      sx, 
                                                                                                                                                                                                                                      ch >>
                                                                                                                                                                                                      ELSE /\ Assert(FALSE, 
-                                                                                                                                                                                                                    "Failure of assertion at line 1192, column 5.")
+                                                                                                                                                                                                                    "Failure of assertion at line 1194, column 5.")
                                                                                                                                                                                                           /\ pc' = [pc EXCEPT ![self] = "Ret"]
                                                                                                                                                                                                           /\ UNCHANGED << st, 
                                                                                                                                                                                                                           tasks, 
@@ -6138,7 +6144,8 @@ SA0(self) == /\ pc[self] = "SA0"
                         /\ lv' = [lv EXCEPT ![self] = 0]
                         /\ snap' = [snap EXCEPT ![self] = <<>>]
                         /\ pc' = [pc EXCEPT ![self] = "DStart"]
-                        /\ UNCHANGED << obs, ntop, ka, ca, ex, nx, fx >>
+                        /\ UNCHANGED << obs, ntop, ka, ca, ex, nx, fx, tx, ta, 
+                                        tc >>
                    ELSE /\ IF ca[self] = "term"
                               THEN /\ sk' = [sk EXCEPT ![ka[self]].disposed = TRUE]
                                    /\ /\ fr' = [fr EXCEPT ![self] = KName(ka[self])]
@@ -6164,7 +6171,7 @@ SA0(self) == /\ pc[self] = "SA0"
                                    /\ snap' = [snap EXCEPT ![self] = <<>>]
                                    /\ pc' = [pc EXCEPT ![self] = "DStart"]
                                    /\ UNCHANGED << obs, ntop, ka, ca, ex, nx, 
-                                                   fx >>
+                                                   fx, tx, ta, tc >>
                               ELSE /\ IF ca[self] = "err"
                                          THEN /\ sk' = [sk EXCEPT ![ka[self]].disposed = TRUE]
                                               /\ /\ fr' = [fr EXCEPT ![self] = KName(ka[self])]
@@ -6190,7 +6197,8 @@ SA0(self) == /\ pc[self] = "SA0"
                                               /\ snap' = [snap EXCEPT ![self] = <<>>]
                                               /\ pc' = [pc EXCEPT ![self] = "DStart"]
                                               /\ UNCHANGED << obs, ntop, ka, 
-                                                              ca, ex, nx, fx >>
+                                                              ca, ex, nx, fx, 
+                                                              tx, ta, tc >>
                                          ELSE /\ IF \E ix \in 1..Len(pi) : ca[self] = "kick " \o IName(ix)
                                                     THEN /\ /\ ex' = [ex EXCEPT ![self] = CHOOSE ix \in 1..Len(pi) : ca[self] = "kick " \o IName(ix)]
                                                             /\ stack' = [stack EXCEPT ![self] = << [ procedure |->  "Emit",
@@ -6212,14 +6220,21 @@ SA0(self) == /\ pc[self] = "SA0"
                                                                          ka, 
                                                                          ca, 
                                                                          nx, 
-                                                                         fx >>
-                                                    ELSE /\ IF \E ix \in 1..Len(pi) : ca[self] = "kickend " \o IName(ix)
-                                                               THEN /\ /\ nx' = [nx EXCEPT ![self] = CHOOSE ix \in 1..Len(pi) : ca[self] = "kickend " \o IName(ix)]
-                                                                       /\ stack' = [stack EXCEPT ![self] = << [ procedure |->  "EndP",
+                                                                         fx, 
+                                                                         tx, 
+                                                                         ta, 
+                                                                         tc >>
+                                                    ELSE /\ IF \E ix \in 1..Len(pi) : ca[self] = "kickgreet " \o IName(ix)
+                                                               THEN /\ /\ stack' = [stack EXCEPT ![self] = << [ procedure |->  "PupTop",
                                                                                                                 pc        |->  "SA1",
-                                                                                                                nx        |->  nx[self] ] >>
+                                                                                                                tc        |->  tc[self],
+                                                                                                                tx        |->  tx[self],
+                                                                                                                ta        |->  ta[self] ] >>
                                                                                                             \o stack[self]]
-                                                                    /\ pc' = [pc EXCEPT ![self] = "N0"]
+                                                                       /\ ta' = [ta EXCEPT ![self] = "greet"]
+                                                                       /\ tx' = [tx EXCEPT ![self] = CHOOSE ix \in 1..Len(pi) : ca[self] = "kickgreet " \o IName(ix)]
+                                                                    /\ tc' = [tc EXCEPT ![self] = ""]
+                                                                    /\ pc' = [pc EXCEPT ![self] = "PT0"]
                                                                     /\ UNCHANGED << sk, 
                                                                                     obs, 
                                                                                     ntop, 
@@ -6234,14 +6249,15 @@ SA0(self) == /\ pc[self] = "SA0"
                                                                                     snap, 
                                                                                     ka, 
                                                                                     ca, 
+                                                                                    nx, 
                                                                                     fx >>
-                                                               ELSE /\ IF \E ix \in 1..Len(pi) : ca[self] = "kickfail " \o IName(ix)
-                                                                          THEN /\ /\ fx' = [fx EXCEPT ![self] = CHOOSE ix \in 1..Len(pi) : ca[self] = "kickfail " \o IName(ix)]
-                                                                                  /\ stack' = [stack EXCEPT ![self] = << [ procedure |->  "FailP",
+                                                               ELSE /\ IF \E ix \in 1..Len(pi) : ca[self] = "kickend " \o IName(ix)
+                                                                          THEN /\ /\ nx' = [nx EXCEPT ![self] = CHOOSE ix \in 1..Len(pi) : ca[self] = "kickend " \o IName(ix)]
+                                                                                  /\ stack' = [stack EXCEPT ![self] = << [ procedure |->  "EndP",
                                                                                                                            pc        |->  "SA1",
-                                                                                                                           fx        |->  fx[self] ] >>
+                                                                                                                           nx        |->  nx[self] ] >>
                                                                                                                        \o stack[self]]
-                                                                               /\ pc' = [pc EXCEPT ![self] = "F0"]
+                                                                               /\ pc' = [pc EXCEPT ![self] = "N0"]
                                                                                /\ UNCHANGED << sk, 
                                                                                                obs, 
                                                                                                ntop, 
@@ -6255,61 +6271,18 @@ SA0(self) == /\ pc[self] = "SA0"
                                                                                                lv, 
                                                                                                snap, 
                                                                                                ka, 
-                                                                                               ca >>
-                                                                          ELSE /\ IF \E j \in 1..NSinks : \E a \in {"attach", "pull", "term"} : ca[self] = "x " \o a \o " " \o KName(j)
-                                                                                     THEN /\ ntop' = ntop + 1
-                                                                                          /\ \E j \in {q \in 1..NSinks : \E a \in {"attach", "pull", "term"} : ca[self] = "x " \o a \o " " \o KName(q)}:
-                                                                                               \E a \in {b \in {"attach", "pull", "term"} : ca[self] = "x " \o b \o " " \o KName(j)}:
-                                                                                                 /\ obs' = LogO(obs, Ev("top", 0, "", KName(j), a, 0))
-                                                                                                 /\ IF a = "attach"
-                                                                                                       THEN /\ sk' = [sk EXCEPT ![j].attached = TRUE]
-                                                                                                            /\ /\ fr' = [fr EXCEPT ![self] = "S"]
-                                                                                                               /\ m' = [m EXCEPT ![self] = MsgH(Ref(0, "K", j, 0))]
-                                                                                                               /\ stack' = [stack EXCEPT ![self] = << [ procedure |->  "Deliver",
-                                                                                                                                                        pc        |->  "SA1",
-                                                                                                                                                        lg        |->  lg[self],
-                                                                                                                                                        sx        |->  sx[self],
-                                                                                                                                                        jx        |->  jx[self],
-                                                                                                                                                        ch        |->  ch[self],
-                                                                                                                                                        lv        |->  lv[self],
-                                                                                                                                                        snap      |->  snap[self],
-                                                                                                                                                        fr        |->  fr[self],
-                                                                                                                                                        to        |->  to[self],
-                                                                                                                                                        m         |->  m[self] ] >>
-                                                                                                                                                    \o stack[self]]
-                                                                                                               /\ to' = [to EXCEPT ![self] = Ref(CFG.root, "src", 0, 0)]
-                                                                                                            /\ lg' = [lg EXCEPT ![self] = FALSE]
-                                                                                                            /\ sx' = [sx EXCEPT ![self] = 0]
-                                                                                                            /\ jx' = [jx EXCEPT ![self] = 0]
-                                                                                                            /\ ch' = [ch EXCEPT ![self] = ""]
-                                                                                                            /\ lv' = [lv EXCEPT ![self] = 0]
-                                                                                                            /\ snap' = [snap EXCEPT ![self] = <<>>]
-                                                                                                            /\ pc' = [pc EXCEPT ![self] = "DStart"]
-                                                                                                            /\ UNCHANGED << ka, 
-                                                                                                                            ca >>
-                                                                                                       ELSE /\ /\ ca' = [ca EXCEPT ![self] = a]
-                                                                                                               /\ ka' = [ka EXCEPT ![self] = j]
-                                                                                                               /\ stack' = [stack EXCEPT ![self] = << [ procedure |->  "SinkAct",
-                                                                                                                                                        pc        |->  "SA1",
-                                                                                                                                                        ka        |->  ka[self],
-                                                                                                                                                        ca        |->  ca[self] ] >>
-                                                                                                                                                    \o stack[self]]
-                                                                                                            /\ pc' = [pc EXCEPT ![self] = "SA0"]
-                                                                                                            /\ UNCHANGED << sk, 
-                                                                                                                            fr, 
-                                                                                                                            to, 
-                                                                                                                            m, 
-                                                                                                                            lg, 
-                                                                                                                            sx, 
-                                                                                                                            jx, 
-                                                                                                                            ch, 
-                                                                                                                            lv, 
-                                                                                                                            snap >>
-                                                                                     ELSE /\ pc' = [pc EXCEPT ![self] = "SA1"]
+                                                                                               ca, 
+                                                                                               fx >>
+                                                                          ELSE /\ IF \E ix \in 1..Len(pi) : ca[self] = "kickfail " \o IName(ix)
+                                                                                     THEN /\ /\ fx' = [fx EXCEPT ![self] = CHOOSE ix \in 1..Len(pi) : ca[self] = "kickfail " \o IName(ix)]
+                                                                                             /\ stack' = [stack EXCEPT ![self] = << [ procedure |->  "FailP",
+                                                                                                                                      pc        |->  "SA1",
+                                                                                                                                      fx        |->  fx[self] ] >>
+                                                                                                                                  \o stack[self]]
+                                                                                          /\ pc' = [pc EXCEPT ![self] = "F0"]
                                                                                           /\ UNCHANGED << sk, 
                                                                                                           obs, 
                                                                                                           ntop, 
-                                                                                                          stack, 
                                                                                                           fr, 
                                                                                                           to, 
                                                                                                           m, 
@@ -6321,12 +6294,79 @@ SA0(self) == /\ pc[self] = "SA0"
                                                                                                           snap, 
                                                                                                           ka, 
                                                                                                           ca >>
-                                                                               /\ fx' = fx
-                                                                    /\ nx' = nx
+                                                                                     ELSE /\ IF \E j \in 1..NSinks : \E a \in {"attach", "pull", "term"} : ca[self] = "x " \o a \o " " \o KName(j)
+                                                                                                THEN /\ ntop' = ntop + 1
+                                                                                                     /\ \E j \in {q \in 1..NSinks : \E a \in {"attach", "pull", "term"} : ca[self] = "x " \o a \o " " \o KName(q)}:
+                                                                                                          \E a \in {b \in {"attach", "pull", "term"} : ca[self] = "x " \o b \o " " \o KName(j)}:
+                                                                                                            /\ obs' = LogO(obs, Ev("top", 0, "", KName(j), a, 0))
+                                                                                                            /\ IF a = "attach"
+                                                                                                                  THEN /\ sk' = [sk EXCEPT ![j].attached = TRUE]
+                                                                                                                       /\ /\ fr' = [fr EXCEPT ![self] = "S"]
+                                                                                                                          /\ m' = [m EXCEPT ![self] = MsgH(Ref(0, "K", j, 0))]
+                                                                                                                          /\ stack' = [stack EXCEPT ![self] = << [ procedure |->  "Deliver",
+                                                                                                                                                                   pc        |->  "SA1",
+                                                                                                                                                                   lg        |->  lg[self],
+                                                                                                                                                                   sx        |->  sx[self],
+                                                                                                                                                                   jx        |->  jx[self],
+                                                                                                                                                                   ch        |->  ch[self],
+                                                                                                                                                                   lv        |->  lv[self],
+                                                                                                                                                                   snap      |->  snap[self],
+                                                                                                                                                                   fr        |->  fr[self],
+                                                                                                                                                                   to        |->  to[self],
+                                                                                                                                                                   m         |->  m[self] ] >>
+                                                                                                                                                               \o stack[self]]
+                                                                                                                          /\ to' = [to EXCEPT ![self] = Ref(CFG.root, "src", 0, 0)]
+                                                                                                                       /\ lg' = [lg EXCEPT ![self] = FALSE]
+                                                                                                                       /\ sx' = [sx EXCEPT ![self] = 0]
+                                                                                                                       /\ jx' = [jx EXCEPT ![self] = 0]
+                                                                                                                       /\ ch' = [ch EXCEPT ![self] = ""]
+                                                                                                                       /\ lv' = [lv EXCEPT ![self] = 0]
+                                                                                                                       /\ snap' = [snap EXCEPT ![self] = <<>>]
+                                                                                                                       /\ pc' = [pc EXCEPT ![self] = "DStart"]
+                                                                                                                       /\ UNCHANGED << ka, 
+                                                                                                                                       ca >>
+                                                                                                                  ELSE /\ /\ ca' = [ca EXCEPT ![self] = a]
+                                                                                                                          /\ ka' = [ka EXCEPT ![self] = j]
+                                                                                                                          /\ stack' = [stack EXCEPT ![self] = << [ procedure |->  "SinkAct",
+                                                                                                                                                                   pc        |->  "SA1",
+                                                                                                                                                                   ka        |->  ka[self],
+                                                                                                                                                                   ca        |->  ca[self] ] >>
+                                                                                                                                                               \o stack[self]]
+                                                                                                                       /\ pc' = [pc EXCEPT ![self] = "SA0"]
+                                                                                                                       /\ UNCHANGED << sk, 
+                                                                                                                                       fr, 
+                                                                                                                                       to, 
+                                                                                                                                       m, 
+                                                                                                                                       lg, 
+                                                                                                                                       sx, 
+                                                                                                                                       jx, 
+                                                                                                                                       ch, 
+                                                                                                                                       lv, 
+                                                                                                                                       snap >>
+                                                                                                ELSE /\ pc' = [pc EXCEPT ![self] = "SA1"]
+                                                                                                     /\ UNCHANGED << sk, 
+                                                                                                                     obs, 
+                                                                                                                     ntop, 
+                                                                                                                     stack, 
+                                                                                                                     fr, 
+                                                                                                                     to, 
+                                                                                                                     m, 
+                                                                                                                     lg, 
+                                                                                                                     sx, 
+                                                                                                                     jx, 
+                                                                                                                     ch, 
+                                                                                                                     lv, 
+                                                                                                                     snap, 
+                                                                                                                     ka, 
+                                                                                                                     ca >>
+                                                                                          /\ fx' = fx
+                                                                               /\ nx' = nx
+                                                                    /\ UNCHANGED << tx, 
+                                                                                    ta, 
+                                                                                    tc >>
                                                          /\ ex' = ex
              /\ UNCHANGED << ci, st, nd, pi, fi, tasks, now, script, panicked, 
-                             started, mon, done, gx, bx, bc, tx, ta, tc, ft, 
-                             act, sj, tk >>
+                             started, mon, done, gx, bx, bc, ft, act, sj, tk >>
 
 SA1(self) == /\ pc[self] = "SA1"
              /\ pc' = [pc EXCEPT ![self] = Head(stack[self]).pc]
